@@ -1,6 +1,7 @@
 package mp4
 
 import (
+	"fmt"
 	"io"
 	"time"
 
@@ -53,6 +54,9 @@ func DecodeMvhd(hdr BoxHeader, startPos uint64, r io.Reader) (Box, error) {
 func DecodeMvhdSR(hdr BoxHeader, startPos uint64, sr bits.SliceReader) (Box, error) {
 	versionAndFlags := sr.ReadUint32()
 	version := byte(versionAndFlags >> 24)
+	if version > 1 {
+		return nil, fmt.Errorf("mvhd version %d not supported", version)
+	}
 
 	m := &MvhdBox{
 		Version: version,
